@@ -72,8 +72,12 @@ get_splicers = Unit(
                 "implies(state == 2, len(save) == k - b_ - 1)",
                 "implies(state == 2, all(save[i] == rstrip(filelines[b_ + 1 + i]) for i in range(k - b_ - 1)))",
                 "implies(state == 2, begin_subtag == lastpiece(begin_tag, '.'))",
+                # WHERE the block will be stored: between blocks `top` is the root of the store; while a block is being
+                # collected it is the node reached through the dotted prefix of its tag
+                "implies(state == 1, top.path == '')",
+                "implies(state == 2, begin_tag == top.path + begin_subtag)",
             ]},
-        1: {"index": "k1", "inv": ["len(subtags) >= 1"]},
+        1: {"index": "k1", "inv": ["len(subtags) >= 1", "top.path == splitpre(subtags, k1, '.')"]},
     },
     ghost=[
         ("after", "state = state_collect", "b_ = k\n"),
@@ -85,6 +89,7 @@ assert len(tree_val) == k - b_ - 1
 assert all(tree_val[i] == rstrip(filelines[b_ + 1 + i]) for i in range(k - b_ - 1))
 assert all(not isE(filelines[i]) for i in range(b_ + 1, k))
 assert tree_key == lastpiece(tagB(filelines[b_]), '.')
+assert tagB(filelines[b_]) == tree_path + tree_key
 nev = nev + 1
 e_ = k + 1
 """),
